@@ -232,11 +232,19 @@ class PyAlg:
     """reference arithmetic on python numbers, per the property: python numeric tower, true division.
     `overflow` is set when an integer result leaves the 64-bit range (outside the properties' domain)."""
     overflow = False
+    fscale = 0.0     # largest magnitude of a float/complex intermediate result (rounding errors are relative to it)
 
     @classmethod
     def _chk(cls, r):
         if isinstance(r, int) and not isinstance(r, bool) and abs(r) >= 2 ** 63:
             cls.overflow = True
+        elif isinstance(r, (float, complex)):
+            try:
+                a = abs(r)
+                if a == a and a != float("inf") and a > cls.fscale:
+                    cls.fscale = a
+            except OverflowError:
+                pass
         return r
 
     @staticmethod
@@ -259,9 +267,9 @@ class PyAlg:
     def neg(cls, a):
         return -a
 
-    @staticmethod
-    def div(a, b):
-        return a / b
+    @classmethod
+    def div(cls, a, b):
+        return cls._chk(a / b)
 
     @classmethod
     def power(cls, a, b):
@@ -273,10 +281,11 @@ class PyAlg:
                 return 0
         return cls._chk(a ** b)
 
-    @staticmethod
-    def func(name, a):
+    @classmethod
+    def func(cls, name, a):
         import numpy as np
-        return getattr(np, name)(a).item()
+        cls._chk(a * 1.0)
+        return cls._chk(getattr(np, name)(a).item())
 
     pi = math.pi
 
